@@ -174,3 +174,14 @@ func init() {
 		Assumptions: commonAssumptions,
 	})
 }
+
+func init() {
+	prop(&PropDef{
+		ID:          "C18",
+		Rules:       []string{"GFS-1", "GFS-2", "GFS-3", "GFS-4", "PANIC-3"},
+		Explanation: "What a download returns for what was uploaded is a relation over runtime values (all byte strings x chunk sizes x write partitions x seek scripts) and is NOT decided. Decided is the bookkeeping that byte-exactness rests on and that is visible in the shape of bucket.go: every quantity of the upload and download paths is normalised to a linear form over receiver fields, parameters, loop variables and len(x), and the forms must be the ones the GridFS layout requires - chunk number, data window, loop step, the three counters, the remainder carry-over, where the file record takes length and chunk size from, the (chunk number, offset) split of a position, fetch order and number checks, how Read and Seek advance - plus the pairing 'file removed => chunks removed'.",
+		Decided:     []string{"chunk number = s.chunks + len(chunks); data = buffer[i:i+size]; size = min(bufLen-i, chunkSize); step = chunkSize; partial chunk only when final", "bufLen/chunks/length updates and remainder carry-over after a flush", "file record / marker take Length, ChunkSize, id from the stream's counters", "Resume accepts only chunks numbered 0,1,2,... and restores the counters from them", "seek: num = position/chunkSize, skip num, sort by n, files_id filter, number check, offset = position - num*chunkSize", "next: consecutive numbers; load: ceil(length/chunkSize)", "Read: EOF test, copy window, position/buffer/read advance by n; Seek: whence table and position stored after success", "Delete / Abort remove the chunks of the file on every successful path", "division by a chunk size only behind a positivity check (PANIC-3)"},
+		NotDecided:  []string{"that the bytes read equal the bytes written for any particular content, chunk size, write partition or seek script", "interaction with concurrent uploads / cleanup (markers)", "the 16 MiB buffer boundary behaviour beyond the carry-over identity", "Cleanup's age arithmetic"},
+		Assumptions: commonAssumptions,
+	})
+}
